@@ -42,6 +42,8 @@ enum Code
     GET,
     WRITE,
     DESTROY,
+    EMPLACE_POS_ALIAS, // emplace(pos, v[k]): the argument refers to an element of the vector itself
+    APPEND_ALIAS,      // emplace_back(v[k]) / insert(v[k]) / push_back(v[k])
     CODE_COUNT
 };
 
@@ -52,7 +54,8 @@ static const char* code_name(int c)
                                "emplace_back", "insert(const&)", "insert(&&)",    "push_back(const&)",
                                "push_back(range)", "insert(pos,range)", "insert(pos,list)",
                                "emplace(pos)", "erase",          "pop_back",      "at",
-                               "std::get",    "write",          "destroy" };
+                               "std::get",    "write",          "destroy",
+                               "emplace(pos,self-element)", "append(self-element)" };
     return c >= 0 && c < CODE_COUNT ? n[c] : "?";
 }
 
@@ -135,8 +138,10 @@ std::string describe(const Case& c)
                 o << (i ? "," : "") << op.vals[i];
             o << "]";
         }
-        if (op.fault)
+        if (op.fault > 0)
             o << ",fault@" << op.fault;
+        if (op.fault < 0)
+            o << ",element-constructor-throws";
         o << ")";
     }
     return o.str();
@@ -255,7 +260,9 @@ Case generate(vf::Src& src, const std::string& mode)
             6,  // AT
             3,  // GET
             3,  // WRITE
-            2   // DESTROY
+            2,  // DESTROY
+            3,  // EMPLACE_POS_ALIAS
+            3   // APPEND_ALIAS
         }));
         op.code = w;
         if (i == 0)
@@ -304,11 +311,20 @@ Case generate(vf::Src& src, const std::string& mode)
             op.b = src.irange(0, 8);
             op.vals = gen_vals(src, 1, 1, false);
             break;
+        case EMPLACE_POS_ALIAS:
+        case APPEND_ALIAS:
+            op.b = src.irange(0, 8);            // position / spelling
+            op.vals = { src.irange(0, 8) };     // index of the element passed as argument
+            break;
         default:
             break;
         }
         if (faults && src.coin(30))
             op.fault = src.irange(1, 4);
+        // the element constructor itself throws (only meaningful where the container
+        // constructs the element: emplace_back / emplace)
+        if (faults && (op.code == EMPLACE_BACK || op.code == EMPLACE_POS) && src.coin(25))
+            op.fault = -1;
         c.ops.push_back(op);
     }
     return c;
@@ -665,7 +681,9 @@ bool Runner<T>::step(const Op& op0, std::size_t index)
     bool have_value = false;
 
     tr::reg().countdown = op.fault > 0 ? op.fault : 0;
-    if (op.fault > 0)
+    const bool ctor_fault = op.fault < 0 && (code == EMPLACE_BACK || code == EMPLACE_POS);
+    tr::reg().ctor_countdown = ctor_fault ? 1 : 0;
+    if (op.fault > 0 || ctor_fault)
         ctx.tag("fault:armed");
     try
     {
@@ -955,6 +973,51 @@ bool Runner<T>::step(const Op& op0, std::size_t index)
                 slot[a]->at(pos) = T(op.vals[0]);
             break;
         }
+        case EMPLACE_POS_ALIAS:
+        {
+            if (!T::copyable || sz == 0)
+            {
+                tr::reg().countdown = 0;
+                return true;
+            }
+            std::size_t k = static_cast<std::size_t>(op.vals.empty() ? 0 : op.vals[0]) % sz;
+            pos = c07 ? pos % (sz + 1) : std::min(pos % (sz + 3), cap);
+            expect_raise = sz >= cap || pos > sz;
+            if (!expect_raise)
+                after.v.insert(after.v.begin() + static_cast<long>(pos), before.v[k]);
+            interesting07 = true;
+            if constexpr (T::copyable)
+                slot[a]->emplace(slot[a]->begin() + pos, (*slot[a])[k]);
+            break;
+        }
+        case APPEND_ALIAS:
+        {
+            if (!T::copyable || sz == 0)
+            {
+                tr::reg().countdown = 0;
+                return true;
+            }
+            std::size_t k = static_cast<std::size_t>(op.vals.empty() ? 0 : op.vals[0]) % sz;
+            expect_raise = sz >= cap;
+            after.v.push_back(before.v[k]);
+            if constexpr (T::copyable)
+            {
+                switch (op.b % 3)
+                {
+                case 0:
+                    slot[a]->emplace_back((*slot[a])[k]);
+                    break;
+                case 1:
+#ifndef VF_NO_INSERT_CREF
+                    slot[a]->insert(static_cast<const T&>((*slot[a])[k]));
+                    break;
+#endif
+                default:
+                    slot[a]->push_back((*slot[a])[k]);
+                }
+            }
+            break;
+        }
         case DESTROY:
             slot[a].reset();
             after = Model();
@@ -973,10 +1036,26 @@ bool Runner<T>::step(const Op& op0, std::size_t index)
         what = e.what();
     }
     tr::reg().countdown = 0;
+    tr::reg().ctor_countdown = 0;
 
     if (!tr::reg().error.empty())
         return fail(tr::reg().error + " (" + when + ")");
 
+    if (fault && ctor_fault)
+    {
+        // the new element could not even be constructed: a failed single-element operation
+        // leaves the container unchanged
+        ctx.tag("fault:element-constructor");
+        boundary = true;
+        if (slot[a] && (contents(*slot[a]) != before_contents || slot[a]->capacity() != before_cap))
+            return fail(std::string(code_name(code)) + " changed the container although the element "
+                        "constructor threw: " + vec_str(before_contents) + " -> " +
+                        vec_str(contents(*slot[a])) + " (" + when + ")");
+        for (int s = 0; s < NSLOT; ++s)
+            if (slot[s] && !invariants(s, (when + ", after a throwing element constructor").c_str()))
+                return false;
+        return err.empty();
+    }
     if (fault)
     {
         // an element operation threw in the middle: contents are unspecified,
@@ -1009,7 +1088,8 @@ bool Runner<T>::step(const Op& op0, std::size_t index)
         // a failed single-element operation leaves the container unchanged
         bool single = code == EMPLACE_BACK || code == INSERT_CREF || code == INSERT_RVAL ||
                       code == PUSH_BACK_CREF || code == EMPLACE_POS || code == ERASE ||
-                      code == POP_BACK || code == AT || code == GET;
+                      code == POP_BACK || code == AT || code == GET || code == EMPLACE_POS_ALIAS ||
+                      code == APPEND_ALIAS;
         if (code == CONSTRUCT_ITER)
         {
             // constructor raised: there is no object
